@@ -335,5 +335,6 @@ MUTANTS = [
     M("still-swallows", RN, "Renderable.draw", "                        render_data, real_render_args, output\n                    )\n                    raise\n", "                        render_data, real_render_args, output\n                    )\n", {"R5"}),
     M("sgr-reset-on-tty-only", CM, "BaseImage.draw", "print(SGR_DEFAULT, SHOW_CURSOR * sys.stdout.isatty(), sep=\"\")", "print((SGR_DEFAULT + SHOW_CURSOR) * sys.stdout.isatty(), end=\"\")", {"R1"}),
     M("sgr-reset-under-test", CM, "BaseImage.draw", "                print(SGR_DEFAULT, SHOW_CURSOR * sys.stdout.isatty(), sep=\"\")", "                if animation:\n                    print(SGR_DEFAULT, SHOW_CURSOR * sys.stdout.isatty(), sep=\"\")", {"R1"}),
+    M("frame-flush-outside-try", RN, "Renderable._animate_", '                    write(frame.render_output.replace("\\n", cursor_to_next_render_line))\n                    flush()\n', '                    write(frame.render_output.replace("\\n", cursor_to_next_render_line))\n', {"R2"}),
     M("twin-hook-order", KT, "KittyImage._handle_interrupted_draw", "ctlseqs.ST * 2 + ctlseqs.KITTY_END_CHUNKED", "2 * ctlseqs.ST + ctlseqs.KITTY_END_CHUNKED", twin=True),
 ]
